@@ -234,7 +234,9 @@ def main():
     sel_close = match_close(mask, sel_open)
     if not (tick.start() < sel_close):
         die("ticker arm is not inside the maintenance select")
-    if re.search(r"(?m)^\s*case ", mask[tick.end():sel_close]) and re.search(r"(?m)^\t{4}case ", mask[tick.end():sel_close]):
+    tick_ls0 = line_start(src, tick.start())
+    arm_indent = src[tick_ls0:tick.start()]
+    if re.search(r"(?m)^" + arm_indent + r"(case |default:)", mask[tick.end():sel_close]):
         die("another select arm follows the ticker arm")
     body_start = src.find("\n", tick.end()) + 1
     body_end = line_start(src, sel_close)
